@@ -10,6 +10,8 @@ import (
 )
 
 func validateEnums(env *Environment, errorSink *validation.ErrorSink) *Environment {
+	// base types can only be followed through aliases if all types resolved without a reference cycle
+	typesResolved := len(errorSink.Errors) == 0
 	Visit(env, func(self Visitor, node Node) {
 		enum, ok := node.(*EnumDefinition)
 		if !ok {
@@ -50,6 +52,9 @@ func validateEnums(env *Environment, errorSink *validation.ErrorSink) *Environme
 		if enum.BaseType == nil {
 			baseType = PrimitiveInt32
 		} else {
+			if !typesResolved {
+				return
+			}
 			underlyingType := GetUnderlyingType(enum.BaseType)
 			switch bt := underlyingType.(type) {
 			case *SimpleType:
